@@ -38,6 +38,17 @@ Theorem C05_calc_timing : forall e script,
 Proof. exact C05_timing. Qed.
 Print Assumptions C05_calc_timing.
 
+(* the user callables are applied exactly as the denotation says: the same callables with the same
+   arguments in the same order, and at the same times (the trace of the run cut after n events
+   contains the calls of the times 0..n) *)
+Theorem C05_calc_calls : forall e script,
+  stop_free script = true -> no_leafn e = true -> NoDup (leaf_ids e) ->
+  forall n, (n <= length script)%nat ->
+  calls_of (r_tr (exec e false (firstn n script))) =
+  flat_map (calls_at script e [] 0 None) (seq 0 (S n)).
+Proof. exact C05_calls. Qed.
+Print Assumptions C05_calc_calls.
+
 (* a stop requested after time m does not change what an operation does up to time m *)
 Theorem C05_calc_causal : forall script e, no_leafn e = true -> forall bs t0 c c' m,
   later c (2 * m) -> later c' (2 * m) ->
@@ -79,11 +90,14 @@ Example C05_calc_example1 :
   denote c05_ex_script1 c05_ex_e [] 0 None = Some (OErr 4, 6%nat) /\
   xroots (r_tr (exec c05_ex_e false c05_ex_script1)) = [OErr 4] /\
   r_roots (exec c05_ex_e false c05_ex_script1) = 1%nat /\
-  r_roots (exec c05_ex_e false (firstn 5 c05_ex_script1)) = 0%nat.
+  r_roots (exec c05_ex_e false (firstn 5 c05_ex_script1)) = 0%nat /\
+  calls_of (r_tr (exec c05_ex_e false c05_ex_script1)) = [(FThrowIf 5 77, 5%Z)] /\
+  calls_at c05_ex_script1 c05_ex_e [] 0 None 5 = [(FThrowIf 5 77, 5%Z)].
 Proof. vm_compute. repeat split; reflexivity. Qed.
 
 Example C05_calc_example2 :
   denote c05_ex_script2 c05_ex_e [] 0 None = Some (OErr 77, 3%nat) /\
   xroots (r_tr (exec c05_ex_e false c05_ex_script2)) = [OErr 77] /\
-  r_roots (exec c05_ex_e false (firstn 2 c05_ex_script2)) = 0%nat.
+  r_roots (exec c05_ex_e false (firstn 2 c05_ex_script2)) = 0%nat /\
+  calls_of (r_tr (exec c05_ex_e false c05_ex_script2)) = [(FThrowIf 5 77, 5%Z); (FAdd 10, 1%Z)].
 Proof. vm_compute. repeat split; reflexivity. Qed.
